@@ -418,3 +418,55 @@ def check_memo_keys(ctx, rule_id: str, module_prefixes: tuple[str, ...], minimum
                    f"{sorted(extra)} gets the answer computed for another input", where(fi, node))
     ctx.require(rule_id, "memo stores", n, minimum)
     return n
+
+
+def predicate_scenarios(prog: Program, fi: FuncInfo, edges, depth: int = 0) -> list[list[tuple[ast.AST, bool, FuncInfo, Node | None]]]:
+    """What is known when the given branch edges of `fi` were taken, with calls to boolean helpers of the package *opened
+    up*: each scenario is one way the helpers can have answered (one accepting return path each), as a list of
+    (sub-condition, truth, function it is written in, node). A guard `if _usable(c):` thus yields the facts established
+    inside `_usable` on each of its `return True` paths - the same facts an inlined test would give."""
+    from ..cfg import must_edges as _must
+
+    scenarios: list[list[tuple[ast.AST, bool, FuncInfo, Node | None]]] = [[]]
+    for b, lab in sorted(edges, key=lambda x: x[0].id):
+        for a, truth in must_atoms([(b, lab)]):
+            alts: list[list[tuple[ast.AST, bool, FuncInfo, Node | None]]] = [[(a, truth, fi, b)]]
+            if isinstance(a, ast.Call) and depth < 2:
+                t = prog.resolve_call(fi, a)
+                if isinstance(t, list) and len(t) == 1 and not isinstance(t[0].node, ast.Lambda):
+                    h = t[0]
+                    hflow = prog.flow(h)
+                    opened: list[list[tuple[ast.AST, bool, FuncInfo, Node | None]]] = []
+                    understood = True
+                    for r in hflow.cfg.returns():
+                        v = r.ast.value
+                        if v is None:
+                            understood = False
+                            continue
+                        if isinstance(v, ast.Constant) and isinstance(v.value, bool):
+                            if v.value is not truth:
+                                continue
+                            extra: list[tuple[ast.AST, bool]] = []
+                        else:
+                            extra = must_atoms([(type("N", (), {"kind": "test", "ast": v})(), "T" if truth else "F")])
+                        path_edges = _must(hflow.cfg, hflow.cfg.entry, r) or set()
+                        for sub in predicate_scenarios(prog, h, path_edges, depth + 1):
+                            sc = list(sub)
+                            # the value returned on this path, opened up as well when it is a helper call
+                            for ea, et in extra:
+                                inner_alts = [[(ea, et, h, r)]]
+                                if isinstance(ea, ast.Call) and depth + 1 < 2:
+                                    fake = type("N", (), {"kind": "test", "ast": ea, "id": -1})()
+                                    got = predicate_scenarios(prog, h, {(fake, "T" if et else "F")}, depth + 1)
+                                    inner_alts = [x for x in got] or inner_alts
+                                sc_list = [sc + ia for ia in inner_alts]
+                                sc = None
+                                opened_local = sc_list
+                                break
+                            else:
+                                opened_local = [sc]
+                            opened += opened_local
+                    if understood and opened:
+                        alts = [[(a, truth, fi, b)] + o for o in opened]
+            scenarios = [s + alt for s in scenarios for alt in alts][:64]
+    return scenarios
